@@ -18,7 +18,7 @@ pub static C04_HISTORY: Scenario = Scenario {
     id: "C04",
     name: "c04-network-history",
     run: run_c04,
-    quick_runs: 4000,
+    quick_runs: 8000,
     thorough_runs: 150_000,
     rule: "one run = 3-5 real Networks and a PRNG history of 4-30 operations (dial, re-dial of a connected peer = replacement, disconnect, restart with the same identity and address, partition / one-way blackhole / loss burst with heal, RPC) while observers call subscribe() at PRNG instants and compare peers() with every live subscription's reconstruction after every operation; distinct = distinct order signature over (operation, outcome, peer events per node); non-trivial = a replacement, disconnect, restart or fault occurred",
     real: super::REAL_NET,
@@ -29,7 +29,7 @@ pub static C09_HISTORY: Scenario = Scenario {
     id: "C09",
     name: "c09-network-history",
     run: run_c09,
-    quick_runs: 4000,
+    quick_runs: 8000,
     thorough_runs: 150_000,
     rule: "one run = 3-5 real Networks (idle timeout 2-10 s, keep-alive absent or below half of it), a PRNG history of dials, disconnects, restarts and RPCs under a PRNG schedule of partitions, one-way blackholes, loss bursts and heals, then a fault-free tail longer than idle timeout + keep-alive + connect timeout; distinct = distinct order signature over (operation, outcome, peer events per node); non-trivial = a disconnect, restart or fault occurred",
     real: super::REAL_NET,
